@@ -163,6 +163,13 @@ OPS = ("register_valid", "register_second", "register_inconsistent", "register_d
 
 
 def check_registry(eng, reg, model, tag):
+    ok, res = call(_check_registry, eng, reg, model, tag)
+    eng.check(ok, tag + ":the registry views can be computed", lambda: "%s: %s" % (type(res).__name__, res))
+    if not ok:
+        raise PathAbort("registry unusable")
+
+
+def _check_registry(eng, reg, model, tag):
     s = _snapshot(reg)
     pub = reg.get_elements()
     allp = reg.get_elements(private=True)
